@@ -311,12 +311,16 @@ pub fn run(ctx: &mut Ctx) {
   let mut invariant_checks = 0u64;
   let mut frames_compared = 0u64;
   let mut cold_compared = 0u64;
-  for p in 0..nprog {
+  // C04 thorough: one extra program whose translated footprint exceeds the code cache
+  let extra = if kind == "c04" && (thorough || ctx.arg_u64("cache-pressure", 0) != 0) { 1 } else { 0 };
+  for p in 0..nprog + extra {
     if !ctx.mine(p) {
       continue;
     }
     ctx.intent(&[p, 0]);
-    let (image, desc) = make_program(&kind, seed, p);
+    let pressure = p == nprog;
+    let steps: u64 = if pressure { 120_000 } else { steps };
+    let (image, desc) = if pressure { crate::gen::pressure::cache_pressure_image() } else { make_program(&kind, seed, p) };
     let mut core = support::core_from_image(&image);
     let mut obs = Observer::new();
     let path = stream_path(&dir, &kind, p);
@@ -384,8 +388,47 @@ pub fn run(ctx: &mut Ctx) {
         #[cfg(feature = "jit")]
         let (entries_before, mapped_before) = if kind == "c03" && running && pc < 0x8000 { (core.cache.verif_entries().len(), decode_block_bytes(&core, pc, 0x8000)) } else { (0, Vec::new()) };
         verif::start(false);
-        step(&mut core);
+        unsafe {
+          crate::rt::EXPECT_PANIC = true;
+        }
+        let stepped = {
+          let c = &mut *core;
+          std::panic::catch_unwind(std::panic::AssertUnwindSafe(|| step(c)))
+        };
+        unsafe {
+          crate::rt::EXPECT_PANIC = false;
+        }
         verif::stop();
+        if let Err(e) = stepped {
+          // the interpreter-only build took this step (it is in the stream): the
+          // recompiler build gave up on a program the interpreter runs
+          let msg = if let Some(s) = e.downcast_ref::<String>() {
+            s.clone()
+          } else if let Some(s) = e.downcast_ref::<&str>() {
+            s.to_string()
+          } else {
+            "?".to_string()
+          };
+          let class: String = msg.chars().map(|c| if c.is_ascii_digit() { '#' } else { c }).collect();
+          let mut class2 = String::new();
+          for c in class.chars() {
+            if !(c == '#' && class2.ends_with('#')) {
+              class2.push(c);
+            }
+          }
+          #[cfg(feature = "jit")]
+          let cache_note = {
+            let (_, _, cursor, cap) = core.cache.verif_layout();
+            format!("code cache: {} of {} bytes used, {} blocks cached", cursor, cap, core.cache.verif_entries().len())
+          };
+          #[cfg(not(feature = "jit"))]
+          let cache_note = String::new();
+          ctx.violation(
+            &format!("{}:jit-build-panicked:{}", prop, class2),
+            &format!("program #{} [{}] step {} (block at {:04X}): the jit build panicked ({}) where the interpreter-only build went on; {}", p, desc, s, pc, msg, cache_note),
+          );
+          break;
+        }
         obs.feed();
         #[cfg(feature = "jit")]
         {
